@@ -1,13 +1,14 @@
 #!/bin/bash
+V=${VERIF_DIR:-$(cd "$(dirname "$(readlink -f "$0")")/.." && pwd)}
 # usage: run_seeded.sh [tier] [id-glob]  -- runs each seeded change against its property's check, in parallel; writes seeded/RESULTS.md
 TIER=${1:-quick}; GLOB=${2:-*}
-cd /verif/seeded || exit 1
+cd $V/seeded || exit 1
 OUT=$(mktemp -d /tmp/seedrun-XXXXXX)
 N=0
 for d in $GLOB/; do
   sid=${d%/}; [ -f "$sid/patch.diff" ] || continue
   pid=${sid%%-*}
-  ( LINES_OUT=3 /verif/tools/mutant.sh "$sid/patch.diff" "$pid" "$TIER" > "$OUT/$sid.log" 2>&1; echo $? > "$OUT/$sid.rc" ) &
+  ( LINES_OUT=3 $V/tools/mutant.sh "$sid/patch.diff" "$pid" "$TIER" > "$OUT/$sid.log" 2>&1; echo $? > "$OUT/$sid.rc" ) &
   N=$((N+1)); if [ $((N % 4)) = 0 ]; then wait; fi
 done
 wait
@@ -22,6 +23,6 @@ for f in "$OUT"/*.rc; do
   v=MISSED; [ "$rc" = 1 ] && v=caught; [ "$rc" = 2 ] && v=harness-error; [ "$rc" = 3 ] && v=patch-failed
   echo "| $sid | $pid | $rc | $v | \`$sig\` |"
 done
-} > /verif/seeded/RESULTS-$TIER.md
-cat /verif/seeded/RESULTS-$TIER.md
+} > $V/seeded/RESULTS-$TIER.md
+cat $V/seeded/RESULTS-$TIER.md
 rm -rf "$OUT"
